@@ -136,3 +136,10 @@ def _v18(repo, mod):
     fn = repo.func("pynguin.instrumentation.version.python3_10", "CheckedCoverageInstrumentation.visit_subscr_access")
     a = find_node(fn, lambda n: isinstance(n, ast.Attribute) and norm(n) == "InstrumentationSetupAction.COPY_SECOND")
     return replace_node(mod, a, "InstrumentationSetupAction.COPY_FIRST")
+
+
+@variant("C09", "frame-flag-accumulated-in-a-scalar", "pynguin.slicer.dynamicslicer", "C09.frame-flag", "per-frame information kept in one scalar (seed C09-e)")
+def _v50(repo, mod):
+    fn = repo.func("pynguin.slicer.dynamicslicer", "DynamicSlicer.slice")
+    s = find_stmt(fn, lambda s: isinstance(s, ast.Assign) and norm(s.targets[0]) == "slc.code_object_dependent" and "state.returned" in norm(s.value))
+    return replace_node(mod, s.value, "slc.code_object_dependent or criterion_in_slice")
